@@ -38,6 +38,21 @@ def localGet (n : Node) (idx sub : Nat) (t : Option Nat) : Option Val :=
   | .ok d => decodeRaw t d
   | .error _ => none
 
+/-- `local.sdo.upload(idx, sub)` (`SdoServer.upload`, the read path behind the local accessors):
+    the bytes `get_data` gives the application, without access check -/
+def localUpload (n : Node) (idx sub : Nat) : Option Bytes :=
+  match getData n idx sub false with
+  | .ok d => some d
+  | .error _ => none
+
+/-- `local.sdo[idx][sub].raw = v` on the local node itself: `encode_raw`, then `SdoServer.download`
+    = `set_data` without access check (the application is not subject to the access rights the
+    dictionary grants to the bus) -/
+def localSet (n : Node) (idx sub : Nat) (t : Option Nat) (v : Val) : Except Err Node :=
+  match encodeRaw t v with
+  | none => .error .generic
+  | some data => setData n (some idx) (some sub) data false
+
 /-! ### two nodes on one bus: dispatch by COB-ID -/
 
 /-- two local nodes `i ≠ j`; a request frame on `0x600 + k` reaches node `k`'s server only -/
